@@ -90,6 +90,16 @@ fn programs(n: usize) -> Vec<(&'static str, String, f64)> {
                         (0..n).map(|i| format!("${{{}}}", i)).collect::<Vec<_>>().join(" ")),
                 7.0 * 1e6 + sum + nn));
     }
+    // the other call shapes with a literal argument list: each either passes the n arguments or is refused
+    v.push(("super_call_arguments",
+            format!("let keep = 7; class A {{ v: number; constructor() {{ let s = 0; for (let i = 0; i < arguments.length; i++) {{ s += arguments[i]; }} this.v = s + arguments.length; }} }} class B extends A {{ constructor(p: number, q: number, r: number) {{ super({}); }} }} let r = new B(1, 2, 3).v; keep * 1000000 + r", list(n, |i| i.to_string())),
+            7.0 * 1e6 + sum + nn));
+    v.push(("new_arguments",
+            format!("let keep = 7; function C() {{ let s = 0; for (let i = 0; i < arguments.length; i++) {{ s += arguments[i]; }} this.v = s + arguments.length; }} let r = new C({}).v; keep * 1000000 + r", list(n, |i| i.to_string())),
+            7.0 * 1e6 + sum + nn));
+    v.push(("method_call_arguments",
+            format!("let keep = 7; let o = {{ k: 1, m() {{ let s = 0; for (let i = 0; i < arguments.length; i++) {{ s += arguments[i]; }} return s + arguments.length + this.k - 1; }} }}; function h(p: number, q: number, u: number) {{ return o.m({}); }} let r = h(1, 2, 3); keep * 1000000 + r", list(n, |i| i.to_string())),
+            7.0 * 1e6 + sum + nn));
     // spread arguments: the argument count is only known at run time and must not be narrowed on the way
     let mk = format!("let xs = []; for (let i = 0; i < {}; i++) {{ xs.push(i); }}", n);
     v.push(("spread_call_arguments",
